@@ -222,6 +222,8 @@ Family(const std::string &f, int lk)
       th.push_back(Sec(t));
       out.push_back(Join(th));
     }
+  } else if (f == "p4s") {  // four single-section threads over {S, SIX, X}: every multiset (the scheduler supplies the arrival orders)
+    add(Programs(plain, 4, 1));
   } else if (f == "p4x1") {
     add(Programs(base, 4, 1));
   } else if (f == "conv2") {
